@@ -1,0 +1,31 @@
+//! Verification hooks (cargo feature `verif`): a thread-local log of the window changes of
+//! [`IoBuffer`](`super::IoBuffer`) and read-only access to its state. Not part of the public API contract.
+use std::{cell::RefCell, vec::Vec};
+
+/// One change of the buffer window, recorded right after it happened.
+#[derive(Clone, Debug, PartialEq, Eq)]
+pub enum Event {
+    /// `count` vacant bytes became occupied.
+    Advance { count: usize, start: usize, end: usize },
+    /// First `count` occupied bytes were skipped.
+    Skip { count: usize, start: usize, end: usize },
+    /// Occupied bytes were moved to the beginning of the buffer.
+    MakeContiguous { start: usize, end: usize },
+    /// The window was reset.
+    Clear,
+    /// The buffer was marked as poisoned.
+    Poison,
+}
+
+std::thread_local! {
+    static LOG: RefCell<Vec<Event>> = RefCell::new(Vec::new());
+}
+
+pub fn emit(event: Event) {
+    LOG.with(|log| log.borrow_mut().push(event));
+}
+
+/// Take all events recorded on this thread so far.
+pub fn take() -> Vec<Event> {
+    LOG.with(|log| core::mem::take(&mut *log.borrow_mut()))
+}
